@@ -37,6 +37,7 @@ def run(ctx):
     n = 24 if ctx.quick else 400
     ev = 0
     items = []
+    item_info = []
 
     def bad(what, inp, obs):
         ctx.violations.append(dict(what=what, key=what, input=inp, observed=obs))
@@ -120,7 +121,10 @@ def run(ctx):
             m_i = float(fp.m_i)
             pq = np.sort(rng.uniform(p[0], p[-1], 12))
             ms_q = np.asarray(fp.m_scaled_func(pq), float)
-            qs = np.array(QUERIES + [float(x) for x in ms[:: max(1, len(ms) // 5)]] + [float(x) for x in (ms[:-1] + ms[1:])[:4] / 2])
+            # (with an integer pressure column the scaled column comes out one ulp off the float table's; a query exactly ON the first
+            # or last node then falls on the other side of the table's end, where the lookup switches to the fill value: interior nodes only)
+            node_q = ms[:: max(1, len(ms) // 5)] if rows_how == "ascending" else ms[1:-1][:: max(1, len(ms) // 5)]
+            qs = np.array(QUERIES + [float(x) for x in node_q] + [float(x) for x in (ms[:-1] + ms[1:])[:4] / 2])
             aq = np.asarray(fp.alpha(qs), float)
             impl.update(m_i=m_i, ms=ms, alpha_q=aq, ms_q=ms_q, pq=pq)
             alpha_tab = np.asarray(fp.pvt_props["alpha"], float)[order_r]
@@ -147,6 +151,7 @@ def run(ctx):
                 if not (1 - 1e-12 <= m_i <= bound * (1 + 1e-12)):
                     bad("with user-supplied diffusivity m_i is not within [1, linear-interpolation bound]", inp, dict(m_i=m_i, bound=bound))
         items.append((tb, p_i, list(qs) if "error" not in impl else [], impl, cls is FlowPropertiesSimple))
+        item_info.append({q_: v_ for q_, v_ in inp.items() if q_ != "table"})
         # ---------------- rescale_pseudopressure
         if k % 2 == 0:
             df = pd.DataFrame({"pressure": p, "pseudopressure": tb0["pseudopressure"], "viscosity": tb0["viscosity"]})
@@ -217,7 +222,7 @@ def run(ctx):
                         dict(columns=list(sub)), dict(accepted=ok, should_accept=need_ok))
     # ---------------- model <-> implementation
     res = rescorr.run_fp_cases(ctx, items, "C09")
-    for (tb, p_i, qs, impl, simple), r in zip(items, res):
+    for (tb, p_i, qs, impl, simple), r, info_ in zip(items, res, item_info):
         if r is None:
             continue
         impl_err = 1.0 if "error" in impl else 0.0
@@ -225,7 +230,7 @@ def run(ctx):
         if r[4] != impl_err or not (r[0] <= 1e-9 * scale and r[1] <= 1e-9 * max(1.0, float(np.max(np.abs(impl.get("ms", [1.0]))))) and r[3] <= 1e-9 * scale
                                     and r[2] <= 1e-9 * float(np.max(np.abs(impl.get("alpha_q", [1.0]))))):
             bad("FlowProperties disagrees with the model (for which the C09 theorems are proved)",
-                dict(p_i=p_i, simple=simple, table={c: [None if x != x else float(x) for x in v] for c, v in tb.items()}), dict(diffs=r, impl_error=impl.get("error")))
+                dict(**info_, table={c: [None if x != x else float(x) for x in v] for c, v in tb.items()}), dict(diffs=r, impl_error=impl.get("error")))
     ctx.cov.update(evaluations=ev, distinct_nontrivial=len(items), traces_validated_against_impl=len([r for r in res if r is not None]), exhaustive_column_subsets=128,
                    rule="tables from all families as DataFrame / dict / dict of read-only arrays; p_i on nodes, between nodes, outside; both constructor "
                         "branches and FlowPropertiesSimple; diffusivity queries incl. +-1e300, +-inf, nodes, midpoints; all 64 column subsets x 2 classes; "
